@@ -264,6 +264,27 @@ def r3(ctx):
         t = "_vector_score_lower(c_old_score, %s)" % new_p
         ok = (t, True) in gu and (t, False) in gd
     ctx.ob(cs.qual, "sift-direction-follows-score-change", ok, cs.loc(), "an increased score sifts up, anything else sifts down" if ok else "sift direction is not `old < new -> up else down`")
+    if len(st) == 1 and (ups or downs):
+        sifts = {ccfg.node_containing(c_) for c_ in ups + downs}
+        from sa.norm import path_atoms
+
+        avoid_e = set()
+        p_ = None
+        for _ in range(6):
+            p_ = ccfg.find_path(ccfg.node_of(st[0].stmt), ccfg.exit, avoid_nodes=sifts, avoid_edges=avoid_e)
+            if p_ is None:
+                break
+            pa = path_atoms(ccfg, p_)
+            lo1, lo2 = "_vector_score_lower(c_old_score, %s)" % new_p, "_vector_score_lower(%s, c_old_score)" % new_p
+            if ((lo1, False) in pa and (lo2, False) in pa) or any(t_ in pa for t_ in (("c_old_score == %s" % new_p, True), ("%s == c_old_score" % new_p, True))):
+                # unchanged score: nothing to restore; look for another path
+                tests = [(a_, b_) for a_, b_ in zip(p_, p_[1:]) if ccfg.kind(a_) == "test"]
+                if not tests:
+                    break
+                avoid_e.add(tests[-1])
+                continue
+            break
+        ctx.ob(cs.qual, "every-score-change-is-followed-by-a-sift", p_ is None, cs.loc(st[0].stmt), "after the score is replaced every path restores the heap with _sift_up or _sift_down on the item's position" if p_ is None else "a path through c_change_score replaces the score and returns without sifting (e.g. a node whose only child is the last leaf): a lowered entry stays above a child with a higher score and pop order is no longer non-increasing", ccfg.describe_path(p_) if p_ else None)
     # _sift_up / _sift_down are judged on their path summaries (recursion or loop, one block per case or one shared
     # block after choosing the child, temporaries or not): see sa/pathfx.py
     from sa import pathfx
